@@ -34,13 +34,14 @@ const (
 	EvCall                     // call that is neither inlined nor modelled as an effect above
 	EvGo                       // go statement / channel operation / select
 	EvLookup                   // discriminator-table (or other map) lookup result used as factory
+	EvAtomic                   // method of sync/atomic.Pointer: Load / Store / Swap / CompareAndSwap (Recv: the variable, Src: value stored)
 )
 
 var evKindName = map[EvKind]string{
 	EvWriteInt: "WRITE_INT", EvWriteBytes: "WRITE_BYTES", EvReadInt: "READ_INT", EvReadBytes: "READ_BYTES",
 	EvLen: "LEN", EvBytes: "BYTES", EvPatch: "PATCH", EvObj: "OBJ", EvCalc: "CALC", EvRep: "REP", EvAlt: "ALT",
 	EvBufOther: "BUF_OTHER", EvLock: "LOCK", EvMapRead: "MAP_READ", EvMapWrite: "MAP_WRITE", EvStore: "STORE",
-	EvLoadGlobal: "LOAD_GLOBAL", EvAlloc: "ALLOC", EvPanicSite: "PANIC_SITE", EvCall: "CALL", EvGo: "GO", EvLookup: "LOOKUP",
+	EvLoadGlobal: "LOAD_GLOBAL", EvAlloc: "ALLOC", EvPanicSite: "PANIC_SITE", EvCall: "CALL", EvGo: "GO", EvLookup: "LOOKUP", EvAtomic: "ATOMIC",
 }
 
 func (k EvKind) String() string { return evKindName[k] }
@@ -164,7 +165,7 @@ func (e *Event) String() string {
 			b.WriteString("[" + strings.Join(cs, " && ") + "] " + eventsString(a.Events))
 		}
 		b.WriteString("}")
-	case EvBufOther, EvLock, EvPanicSite, EvAlloc:
+	case EvBufOther, EvLock, EvPanicSite, EvAlloc, EvAtomic:
 		fmt.Fprintf(&b, " %s", e.Mode)
 		if e.Recv != nil {
 			fmt.Fprintf(&b, " %s", e.Recv.Pretty())
